@@ -147,20 +147,27 @@ def finish(pid, P, props, tier, seed, results, known, t0, warnings, scratch_root
         "wall_s": round(wall, 2),
         "violations": len(violations),
     }
-    os.makedirs(os.path.join(ROOT, "evidence"), exist_ok=True)
-    with open(os.path.join(ROOT, "evidence", pid + ".json"), "w") as f:
+    evdir = os.environ.get("VERIF_EVIDENCE_DIR") or os.path.join(ROOT, "evidence")
+    os.makedirs(evdir, exist_ok=True)
+    with open(os.path.join(evdir, pid + ".json"), "w") as f:
         json.dump(ev, f, indent=1)
     for l in out_lines:
         print(l)
     if violations:
-        os.makedirs(os.path.join(ROOT, "replay"), exist_ok=True)
-        rp = os.path.join(ROOT, "replay", "%s-%d.json" % (pid, int(time.time())))
+        rdir = os.environ.get("VERIF_REPLAY_DIR") or os.path.join(ROOT, "replay")
+        os.makedirs(rdir, exist_ok=True)
+        rp = os.path.join(rdir, "%s-%d.json" % (pid, int(time.time())))
         witness = None
-        try:
-            import witness as W
-            witness = W.search(pid, violations, seed, tier)
-        except Exception as e:  # witness search is best effort
-            witness = None
+        for v in violations:
+            if v.get("witness"):
+                witness = v["witness"]
+                break
+        if witness is None:
+            try:
+                import witness as W
+                witness = W.search(pid, violations, seed, tier)
+            except Exception as e:  # witness search is best effort
+                witness = None
         with open(rp, "w") as f:
             json.dump({"property": pid, "tier": tier, "failed_obligations": violations,
                        "witness": witness,
